@@ -3,6 +3,7 @@ package main
 import (
 	"bytes"
 	"fmt"
+	"io"
 	"net"
 	"strconv"
 	"strings"
@@ -112,6 +113,14 @@ type pktStep struct {
 	// (reverse) keep the media goroutine at the mid-frame point, should it get there, until the
 	// parked response has been released and answered
 	hold bool
+	// queued (step kind Q): before the packet is delivered the tokens of the connection's rate limiter are
+	// used up, all but `keep` of them (the flush interval has not elapsed: the frame — with keep = 1 its
+	// body only, the prefix goes out directly — stays in the write queue); before each `between` request
+	// the limiter gets one token back (the flush interval has elapsed): the response is written with
+	// media still queued and a token at hand.  The limiter is moved through the verif accessors of
+	// network/socket/buffered instead of sleeping.
+	queued bool
+	keep   int
 }
 
 type tearCase struct {
@@ -130,7 +139,9 @@ func (t tearCase) line() string {
 		return strings.Join(x, "+")
 	}
 	for _, p := range t.pkts {
-		if p.rev != "" {
+		if p.queued {
+			fmt.Fprintf(&b, " Q %d %d %d %s", p.k, p.size, p.keep, j(p.between))
+		} else if p.rev != "" {
 			fmt.Fprintf(&b, " V %d %d %s %s %s", p.k, p.size, p.rev, B01(p.hold), j(p.between))
 		} else {
 			fmt.Fprintf(&b, " P %d %d %s %s", p.k, p.size, j(p.inject), j(p.between))
@@ -158,6 +169,12 @@ func parseTear(f []string) (t tearCase, ok bool) {
 			k, _ := strconv.Atoi(f[i+1])
 			n, _ := strconv.Atoi(f[i+2])
 			t.pkts = append(t.pkts, pktStep{k: k, size: n, inject: sp(f[i+3]), between: sp(f[i+4])})
+			i += 5
+		case f[i] == "Q" && i+4 < len(f):
+			k, _ := strconv.Atoi(f[i+1])
+			n, _ := strconv.Atoi(f[i+2])
+			kp, _ := strconv.Atoi(f[i+3])
+			t.pkts = append(t.pkts, pktStep{k: k, size: n, queued: true, keep: kp, between: sp(f[i+4])})
 			i += 5
 		case f[i] == "V" && i+5 < len(f):
 			k, _ := strconv.Atoi(f[i+1])
@@ -193,7 +210,9 @@ type tearResult struct {
 	err     string
 	torn    string // the client saw a unit that cannot be: the run was cut there
 	timeout bool   // a watchdog expired during the run
-	where   string // what was going on when the run was cut: mid-frame | socket-write | -
+	where   string // what was going on when the run was cut: mid-frame | socket-write | queued | -
+	qAsked  int    // Q steps of the case
+	qHit    int    // … after which media really was in the write queue when the request was made
 }
 
 func transportFor(ch int, ctl bool) string {
@@ -232,7 +251,7 @@ func runTear(fx *sl.Fixture, t tearCase) (res tearResult) {
 	}()
 	fx.Ensure()
 	sl.WaitUntil(func() bool { return fx.Stream.ConsumerCount() == 0 })
-	c := sl.DialTCP(0)
+	c, bc := sl.DialTCPBuffered(0) // bc: the session's buffered.Conn (write queue, rate limiter)
 	cl = c
 	c.SetServerWrite(ctl.sockHook)
 	cseq := 0
@@ -358,6 +377,15 @@ func runTear(fx *sl.Fixture, t tearCase) (res tearResult) {
 			return
 		}
 		lab := fmt.Sprintf("F%d", i)
+		if p.queued {
+			// the session is quiet (the media goroutine is at its queue, no request is in flight): use up the
+			// limiter's tokens as a burst of writes would
+			buffered.VerifUseUpTokens(bc)
+			for k := 0; k < p.keep; k++ {
+				buffered.VerifGrantToken(bc)
+			}
+			res.qAsked++
+		}
 		if p.rev != "" && sub {
 			// ---- reverse pre-emption: park the request goroutine inside the socket write of its response
 			res.where = "socket-write"
@@ -468,14 +496,22 @@ func runTear(fx *sl.Fixture, t tearCase) (res tearResult) {
 			}
 			// an unsubscribed channel: Packet.Write returns before the schedule point, nothing is sent
 		}
-		for _, m := range p.between {
+		for j, m := range p.between {
 			if !idle() {
 				fail("media goroutine did not come back to its queue")
 				return
 			}
+			if p.queued {
+				if j == 0 && bc.Buffered() > 0 {
+					res.qHit++ // (on a very busy machine real time may have refilled the limiter before the frame was written: then nothing is queued and the step is an ordinary one)
+				}
+				res.where = "queued"
+				buffered.VerifGrantToken(bc) // the flush interval has elapsed
+			}
 			if !answered(m, req(m, base+fx.Path, "")) {
 				return
 			}
+			res.where = "-"
 		}
 	}
 	if !idle() {
@@ -825,7 +861,7 @@ func runC13(c *Ctx) {
 	config.VerifSetAuth(false)
 	verifhook.Set(hook)
 	c.Res.Rule = "tear: case = (interleaved channel set-up, packets with sizes, requests injected while the media goroutine is parked between frame prefix and body, or a response parked inside its socket write while a packet is delivered, requests between frames); " +
-		"wsmsg: case = (ws-rtsp|wsp, set-up, packets, keep-alive requests); bconn: case = (buffer size, flush rate, write sizes / flushes); pw: (channel table, packet). " +
+		"wsmsg: case = (ws-rtsp|wsp, set-up, packets, keep-alive requests); tear step Q: a packet delivered with the rate limiter's tokens used up (the frame stays queued), requests answered after the limiter got a token back; bconn: case = (flush rate, operations: a hand-over of n bytes through Write or through a caller's WriteString / ReadFrom / WriteByte probe, Flush, limiter tokens used up, limiter token granted); pw: (channel table, packet). " +
 		"Distinct by case text; non-trivial when at least one frame is written (tear: with an injected request; bconn: with a write that does not fit the free buffer space or a limited write)"
 	fx := &sl.Fixture{Path: "/live/a", Doc: sl.NewSdpDoc(sl.VideoAudioSdp("streamid=0", "streamid=1"))}
 
@@ -861,6 +897,18 @@ func runC13(c *Ctx) {
 				p := pktStep{k: []int{0, 0, 0, 1, 2, 2, 3}[r.Intn(7)], size: sizes[r.Intn(len(sizes))]}
 				if r.Chance(15) {
 					p.size = r.Intn(3000)
+				}
+				if r.Chance(20) {
+					// media queued inside a flush interval, a request answered once the limiter has a token again
+					p.queued, p.keep = true, r.Intn(2)
+					for m := 1 + r.Intn(2); m > 0; m-- {
+						p.between = append(p.between, reqs[r.Intn(3+r.Intn(4))%len(reqs)])
+					}
+					if p.size > 60000 {
+						p.size = 1400
+					}
+					t.pkts = append(t.pkts, p)
+					continue
 				}
 				if r.Chance(30) {
 					// the other direction: the response is in its socket write when the packet is delivered
@@ -943,7 +991,9 @@ func runC13(c *Ctx) {
 				rev++
 			}
 		}
-		c.Eval(t.line(), inj+rev > 0 && len(res.frames) > 0)
+		c.Eval(t.line(), inj+rev+res.qHit > 0 && len(res.frames) > 0)
+		c.CountN("tear-requests-with-media-queued-asked", res.qAsked)
+		c.CountN("tear-requests-with-media-queued", res.qHit)
 		c.Count("tear-cases")
 		c.CountN("tear-frames", len(res.frames))
 		c.CountN("tear-injected-requests", inj)
@@ -957,6 +1007,8 @@ func runC13(c *Ctx) {
 				return ":request-while-mid-frame"
 			case res.where == "socket-write":
 				return ":frame-while-response-in-socket-write"
+			case res.where == "queued" || (inj == 0 && rev == 0 && res.qAsked > 0):
+				return ":request-with-media-queued"
 			case inj > 0 && rev > 0:
 				return ":requests-during-delivery"
 			case inj > 0:
@@ -972,6 +1024,18 @@ func runC13(c *Ctx) {
 				// delivered frames (followed by the beginning of one)
 				c.Find(Finding{Kind: "oracle", Class: pv + ctxOf(), Case: t.line(),
 					Impl: fmt.Sprintf("%s; %d bytes received, %d frames delivered", res.err, len(res.raw), len(res.frames)), Spec: pv,
+					Detail: "stream=" + trunc(Hx(res.raw), 600)})
+				continue
+			}
+			if strings.HasPrefix(res.torn, "bytes that are neither a response nor a frame: bad ") { // not "truncated …": a connection that ended
+				// the client's own reader (status line `RTSP/1.0 ddd text`, `name: value` header lines, CRLF
+				// endings) met bytes that are neither; the Lean recogniser of an UNFINISHED stream is more
+				// lenient about what a started response may contain (any bytes up to the empty line), so the
+				// cut stream can still pass as "the beginning of a response": foreign bytes inside a response
+				// are exactly what the property forbids
+				c.Find(Finding{Kind: "oracle", Class: "torn-stream" + ctxOf(), Case: t.line(),
+					Impl: fmt.Sprintf("%s; %d bytes received, %d frames delivered", trunc(res.err, 300), len(res.raw), len(res.frames)),
+					Spec: "every unit on the wire is a complete response (status line, header lines) or a complete frame",
 					Detail: "stream=" + trunc(Hx(res.raw), 600)})
 				continue
 			}
@@ -1112,22 +1176,96 @@ func trunc(s string, n int) string {
 	return s
 }
 
+// one operation on a buffered.Conn.  kind: 'W' Write; 'S' / 'C' / 'B' the bytes are handed over by a
+// caller that PROBES the connection for a faster method, as the callers of an io.Writer do — 'S'
+// io.WriteString (WriteString, else Write: the probe of av/format/rtsp Response.Write / Header.Write /
+// Request.Write), 'C' io.Copy from a plain reader (ReadFrom, else Write), 'B' one byte through an
+// io.ByteWriter probe (WriteByte, else Write); 'F' Flush; 'D' the limiter's tokens are used up (a burst
+// of writes has just gone out); 'T' the limiter gets a token back (a flush interval has elapsed).
+type bop struct {
+	kind byte
+	n    int
+}
+
+type bcase struct {
+	rate int
+	ops  []bop
+}
+
+func (k bcase) line() string {
+	var b strings.Builder
+	fmt.Fprintf(&b, "c13 bconnx %d", k.rate)
+	for _, o := range k.ops {
+		switch o.kind {
+		case 'F', 'D', 'T':
+			fmt.Fprintf(&b, " %c", o.kind)
+		default:
+			fmt.Fprintf(&b, " %c%d", o.kind, o.n)
+		}
+	}
+	return b.String()
+}
+
+// plainReader hides every method of the reader but Read (io.Copy must not find a WriterTo)
+type plainReader struct{ r io.Reader }
+
+func (p plainReader) Read(b []byte) (int, error) { return p.r.Read(b) }
+
+// handOver gives p to the connection the way a caller of kind `kind` does
+func handOver(bcn *buffered.Conn, kind byte, p []byte) {
+	var w io.Writer = bcn
+	switch kind {
+	case 'S':
+		io.WriteString(w, string(p))
+	case 'C':
+		io.Copy(w, plainReader{bytes.NewReader(p)})
+	case 'B':
+		if bw, ok := w.(io.ByteWriter); ok {
+			for _, x := range p {
+				bw.WriteByte(x)
+			}
+		} else {
+			w.Write(p)
+		}
+	default:
+		w.Write(p)
+	}
+}
+
 func runBConn(c *Ctx) {
 	r := c.Rng
-	type bc struct {
-		rate int
-		ops  []int // >0: write of that size; 0: flush
-	}
-	var cases []bc
+	var cases []bcase
 	var lines []string
 	for _, l := range c.CorpusLines() {
 		f := strings.Fields(l)
-		if len(f) > 3 && f[0] == "c13" && f[1] == "bconnops" {
-			k := bc{}
+		if len(f) > 3 && f[0] == "c13" && f[1] == "bconnops" { // the older form: sizes, 0 = flush
+			k := bcase{}
 			k.rate, _ = strconv.Atoi(f[2])
 			for _, x := range f[3:] {
 				v, _ := strconv.Atoi(x)
-				k.ops = append(k.ops, v)
+				if v == 0 {
+					k.ops = append(k.ops, bop{'F', 0})
+				} else {
+					k.ops = append(k.ops, bop{'W', v})
+				}
+			}
+			cases = append(cases, k)
+		}
+		if len(f) > 3 && f[0] == "c13" && f[1] == "bconnx" {
+			k := bcase{}
+			k.rate, _ = strconv.Atoi(f[2])
+			for _, x := range f[3:] {
+				o := bop{kind: x[0]}
+				if len(x) > 1 {
+					o.n, _ = strconv.Atoi(x[1:])
+				}
+				if strings.IndexByte("WSCBFDT", o.kind) < 0 || (strings.IndexByte("WSC", o.kind) >= 0 && o.n <= 0) {
+					continue
+				}
+				if o.kind == 'B' {
+					o.n = 1
+				}
+				k.ops = append(k.ops, o)
 			}
 			cases = append(cases, k)
 		}
@@ -1136,22 +1274,42 @@ func runBConn(c *Ctx) {
 		n := c.Budget(1500, 20000)
 		szs := []int{1, 2, 4, 100, 1000, 4095, 4096, 4097, 8000, 8187, 8188, 8191, 8192, 8193, 8196, 12000, 16384, 16385, 30000}
 		for i := 0; i < n; i++ {
-			k := bc{rate: []int{1, 1, 2, 3, 1000000}[r.Intn(5)]}
+			k := bcase{rate: []int{1, 1, 2, 3, 1000000}[r.Intn(5)]}
+			// half of the cases move the limiter's clock, so that a write meets every combination of
+			// (queue empty | not empty) × (token | no token) — without it a token never comes back while bytes are queued
+			clock := k.rate < 1000 && r.Chance(50)
 			for m := 1 + r.Intn(12); m > 0; m-- {
-				if r.Chance(15) {
-					k.ops = append(k.ops, 0)
-				} else if r.Chance(80) {
-					k.ops = append(k.ops, szs[r.Intn(len(szs))])
-				} else {
-					k.ops = append(k.ops, 1+r.Intn(20000))
+				switch {
+				case clock && r.Chance(15):
+					k.ops = append(k.ops, bop{'D', 0})
+				case clock && r.Chance(25):
+					k.ops = append(k.ops, bop{'T', 0})
+				case r.Chance(15):
+					k.ops = append(k.ops, bop{'F', 0})
+				default:
+					o := bop{kind: "WWWSSCB"[r.Intn(7)]}
+					switch {
+					case o.kind == 'B':
+						o.n = 1
+					case clock && r.Chance(50):
+						o.n = []int{1, 2, 4, 9, 100, 1000}[r.Intn(6)] // small: stays in the queue
+					case r.Chance(80):
+						o.n = szs[r.Intn(len(szs))]
+					default:
+						o.n = 1 + r.Intn(20000)
+					}
+					k.ops = append(k.ops, o)
 				}
 			}
 			cases = append(cases, k)
 		}
 	}
 	type obsT struct {
-		sock []byte
-		all  []byte
+		sock   []byte
+		all    []byte
+		qt     int // writes that met a non-empty queue right after the limiter got a token back
+		badAt  int // first operation after which the socket is not a prefix of what was handed over (-1: none)
+		badVia byte
 	}
 	var obs []obsT
 	for _, k := range cases {
@@ -1161,22 +1319,40 @@ func runBConn(c *Ctx) {
 		b.WriteString("c13 bconn 8192")
 		var all []byte
 		seq := byte(1)
-		caseLine := fmt.Sprintf("c13 bconnops %d %s", k.rate, strings.Trim(fmt.Sprint(k.ops), "[]"))
+		caseLine := k.line()
+		o := obsT{badAt: -1}
+		ticked := false
 		returned, pnc := sl.Guard(sl.Watchdog, func() {
-			for _, op := range k.ops {
-				if op == 0 {
+			for i, op := range k.ops {
+				switch op.kind {
+				case 'F':
 					bcn.Flush()
 					fmt.Fprintf(&b, " F %d %d", rc.buf.Len(), bcn.Buffered())
 					continue
+				case 'D':
+					buffered.VerifUseUpTokens(bcn)
+					ticked = false
+					continue
+				case 'T':
+					buffered.VerifGrantToken(bcn)
+					ticked = true
+					continue
 				}
-				p := make([]byte, op)
+				p := make([]byte, op.n)
 				for j := range p {
 					p[j] = seq
 					seq++
 				}
 				all = append(all, p...)
-				bcn.Write(p)
-				fmt.Fprintf(&b, " W %d %d %d", op, rc.buf.Len(), bcn.Buffered())
+				if ticked && bcn.Buffered() > 0 {
+					o.qt++
+				}
+				ticked = false
+				handOver(bcn, op.kind, p)
+				fmt.Fprintf(&b, " %c %d %d %d", op.kind, op.n, rc.buf.Len(), bcn.Buffered())
+				if o.badAt < 0 && !bytes.HasPrefix(all, rc.buf.Bytes()) {
+					o.badAt, o.badVia = i, op.kind
+				}
 			}
 		})
 		if !returned {
@@ -1191,25 +1367,48 @@ func runBConn(c *Ctx) {
 			c.Find(Finding{Kind: "oracle", Class: "buffered-conn-panic", Case: caseLine, Impl: fmt.Sprint("panic: ", pnc), Spec: "Write/Flush never panic"})
 		}
 		lines = append(lines, b.String())
-		obs = append(obs, obsT{append([]byte(nil), rc.buf.Bytes()...), all})
+		o.sock, o.all = append([]byte(nil), rc.buf.Bytes()...), all
+		obs = append(obs, o)
 	}
 	outs := c.Drive(lines)
+	viaName := map[byte]string{'W': "Write", 'S': "WriteString-probe", 'C': "ReadFrom-probe", 'B': "WriteByte-probe"}
 	for i, k := range cases {
-		cl := fmt.Sprintf("c13 bconnops %d %s", k.rate, strings.Trim(fmt.Sprint(k.ops), "[]"))
+		cl := k.line()
 		m := KV(outs[i])
 		nontriv := strings.Contains(m["decisions"], "1")
 		for _, op := range k.ops {
-			if op > 8192/2 {
+			if op.n > 8192/2 {
 				nontriv = true
+			}
+			if v, ok := viaName[op.kind]; ok {
+				c.Count("bconn-via-" + v)
 			}
 		}
 		c.Eval(cl, nontriv)
 		c.Count("bconn-cases")
+		c.CountN("bconn-writes-with-bytes-queued-and-a-fresh-token", obs[i].qt)
 		if strings.Contains(m["decisions"], "1") {
 			c.Count("bconn-with-limited-write")
 		}
 		if strings.Contains(m["decisions"], "0") {
 			c.Count("bconn-with-unlimited-write")
+		}
+		// the property itself on the implementation, whatever method the bytes went through: the socket
+		// has received a prefix of what was handed over, in order (and socket ++ queue is all of it)
+		if obs[i].badAt >= 0 || !bytes.HasPrefix(obs[i].all, obs[i].sock) {
+			via := viaName[obs[i].badVia]
+			if via == "" {
+				via = "Flush"
+			}
+			c.Find(Finding{Kind: "oracle", Class: "buffered-conn-order:" + via, Case: cl, Impl: trunc(Hx(obs[i].sock), 200), Spec: "socket bytes ++ queue = concatenation of what was handed over",
+				Detail: fmt.Sprintf("out of order after operation %d", obs[i].badAt)})
+			continue
+		}
+		if strings.HasPrefix(outs[i], "unmodelled ") {
+			// a probe found a method the model does not describe (Gen.bconnMethods): the obligation
+			// c13_source_conn_methods is broken as well; the bytes were in order on this case
+			c.Find(Finding{Kind: "corr", Class: "buffered-conn-unmodelled-method", Case: cl, Impl: "the probe found " + m["method"], Model: outs[i]})
+			continue
 		}
 		if !strings.HasPrefix(outs[i], "ok ") {
 			c.Find(Finding{Kind: "corr", Class: "buffered-conn", Case: cl, Impl: "observed lengths", Model: outs[i]})
@@ -1218,9 +1417,8 @@ func runBConn(c *Ctx) {
 		if m["sock"] != fmt.Sprintf("%d:%d", len(obs[i].sock), checksum(obs[i].sock)) {
 			c.Find(Finding{Kind: "corr", Class: "buffered-conn-bytes", Case: cl, Impl: trunc(Hx(obs[i].sock), 200), Model: trunc(m["sock"], 200)})
 		}
-		// the property itself on the implementation: the socket has received a prefix of what was written, in order
-		if !bytes.HasPrefix(obs[i].all, obs[i].sock) || m["spec"] != "1" {
-			c.Find(Finding{Kind: "oracle", Class: "buffered-conn-order", Case: cl, Impl: trunc(Hx(obs[i].sock), 200), Spec: "socket bytes ++ buffer = concatenation of the writes"})
+		if m["spec"] != "1" {
+			c.Find(Finding{Kind: "oracle", Class: "buffered-conn-order:model", Case: cl, Impl: trunc(Hx(obs[i].sock), 200), Spec: "socket bytes ++ buffer = concatenation of the writes"})
 		}
 	}
 }
